@@ -127,8 +127,8 @@ pub struct C02;
 
 fn char_space(g: Group, t: Tier) -> SeqSpace {
     match g {
-        Group::Doc => SeqSpace::new(&DEB822_CLASSES, t.pick(4, 6), 0),
-        Group::Rel => SeqSpace::new(&REL_CLASSES, t.pick(3, 5), 0),
+        Group::Doc => SeqSpace::new(&DEB822_CLASSES, t.pick(5, 6), 0),
+        Group::Rel => SeqSpace::new(&REL_CLASSES, t.pick(4, 5), 0),
         Group::Codec => SeqSpace::new(&CODEC_CLASSES, t.pick(4, 5), 0),
     }
 }
